@@ -5,6 +5,7 @@ import (
 	"compress/gzip"
 	"context"
 	"fmt"
+	"io"
 	"runtime"
 	"sort"
 	"strings"
@@ -14,6 +15,7 @@ import (
 
 	"github.com/PowerDNS/lightningstream/config"
 	"github.com/PowerDNS/lightningstream/snapshot"
+	"github.com/PowerDNS/lightningstream/snapshot/gogosnapshot"
 	"github.com/PowerDNS/lightningstream/syncer/events"
 	"github.com/PowerDNS/lightningstream/syncer/hooks"
 	"github.com/PowerDNS/lightningstream/syncer/receiver"
@@ -32,14 +34,17 @@ import (
 // ---------------------------------------------------------------------------
 
 type C16Op struct {
-	Kind    string `json:"kind"` // publish | remove | faults | consume | release | wait
+	Kind    string `json:"kind"` // publish | foreign | remove | faults | consume | release | wait
 	Inst    int    `json:"inst,omitempty"`
 	Corrupt bool   `json:"corrupt,omitempty"`
-	Idx     int    `json:"idx,omitempty"`
-	List    int    `json:"list_fail,omitempty"`
-	Load    int    `json:"load_fail,omitempty"`
-	LoadKind string `json:"load_kind,omitempty"` // fail | not-exist
-	WaitUs  int    `json:"wait_us,omitempty"`
+	// CorruptKind: 0 not a gzip stream | 1 valid gzip stream around bytes that are no protobuf message |
+	// 2 a valid blob cut short | 3 valid gzip stream around a snapshot message whose last field is cut
+	CorruptKind int    `json:"corrupt_kind,omitempty"`
+	Idx         int    `json:"idx,omitempty"`
+	List        int    `json:"list_fail,omitempty"`
+	Load        int    `json:"load_fail,omitempty"`
+	LoadKind    string `json:"load_kind,omitempty"` // fail | not-exist
+	WaitUs      int    `json:"wait_us,omitempty"`
 }
 
 type C16Case struct {
@@ -112,6 +117,67 @@ type bucketState struct {
 	newestValid map[string]string // instance -> newest decodable name
 }
 
+// refDecodes reports whether the reference codec decodes the blob.
+func refDecodes(blob []byte) bool {
+	r, err := gzip.NewReader(bytes.NewReader(blob))
+	if err != nil {
+		return false
+	}
+	pb, err := io.ReadAll(r)
+	if err != nil {
+		return false
+	}
+	var g gogosnapshot.Snapshot
+	return g.Unmarshal(pb) == nil
+}
+
+func gzOf(pb []byte) []byte {
+	var buf bytes.Buffer
+	w := gzip.NewWriter(&buf)
+	_, _ = w.Write(pb)
+	_ = w.Close()
+	return buf.Bytes()
+}
+
+// corruptBlob builds a blob no decoder can accept (checked against the reference codec).
+func corruptBlob(inst string, id uint64, kind int) []byte {
+	switch kind % 4 {
+	case 1:
+		return gzOf(bytes.Repeat([]byte{0xff}, 24)) // unterminated varint at the top level
+	case 2:
+		v := validBlob(inst, id)
+		return v[:len(v)-9] // cuts into the deflate stream / the trailer
+	case 3:
+		m := model.Snap{FormatVersion: 3, CompatVersion: 1, Meta: model.Meta{InstanceID: inst, DatabaseName: "x", TimestampNano: id},
+			DBIs: []model.DBI{{Name: "d", Entries: []model.KV{{Key: []byte("k"), Val: model.ValOf([]byte("v")), TS: id}}}}}
+		pb, _ := m.ToGogo().Marshal()
+		return gzOf(pb[:len(pb)-3]) // the databases field announces more bytes than there are
+	}
+	return []byte("this is not a gzip stream")
+}
+
+// Names that must never be taken for snapshots of database db: other databases whose names share a
+// prefix with it (with instance names that exist here and later timestamps), and junk.
+func foreignName(db, inst string, idx int, ts time.Time) (name string, otherDB bool) {
+	switch idx % 8 {
+	case 0:
+		return snapshot.Name(db+"x", inst, "GX", ts), true
+	case 1:
+		return snapshot.Name(db+"-2", inst, "GX", ts), true
+	case 2:
+		return snapshot.Name(db+"0", inst, "GX", ts), true
+	case 3:
+		return snapshot.Name(db[:len(db)-1], inst, "GX", ts), true
+	case 4:
+		return db + "__" + inst + "__not-a-timestamp__GX.pb.gz", false
+	case 5:
+		return db + "__" + inst, false
+	case 6:
+		return strings.TrimSuffix(snapshot.Name(db, inst, "GX", ts), ".pb.gz") + ".tmp", false
+	}
+	return db + "_" + inst + "__" + snapshot.NameTimestamp(ts) + "__GX.pb.gz", true
+}
+
 func checkC16(c C16Case, o *vcore.Obs) error {
 	// a small pool of database names: the metric registry keeps every label set for ever
 	db := fmt.Sprintf("rdb%d", dbSeq.Add(1)%8)
@@ -138,7 +204,7 @@ func checkC16(c C16Case, o *vcore.Obs) error {
 		st := bucketState{newestValid: map[string]string{}}
 		for _, n := range b.Names() {
 			ni, err := snapshot.ParseName(n)
-			if err != nil || corrupt[n] {
+			if err != nil || corrupt[n] || ni.SyncerName != db {
 				continue
 			}
 			if cur, ok := st.newestValid[ni.InstanceID]; !ok || n > cur {
@@ -147,7 +213,15 @@ func checkC16(c C16Case, o *vcore.Obs) error {
 		}
 		states = append(states, st)
 	}
-	publish := func(inst string, isCorrupt bool) string {
+	nForeign := 0
+	publishForeign := func(inst string, idx int) {
+		// later than every snapshot this database will ever get: if it were taken for one of them it would win
+		name, _ := foreignName(db, inst, idx, clock.Add(1000*time.Hour+time.Duration(nForeign)*time.Second))
+		nForeign++
+		b.Put(name, validBlob(inst, 7))
+		snapshotState()
+	}
+	publish := func(inst string, isCorrupt bool, kind int) string {
 		clock = clock.Add(time.Second)
 		name := snapshot.Name(db, inst, "GX", clock)
 		nextID++
@@ -155,7 +229,12 @@ func checkC16(c C16Case, o *vcore.Obs) error {
 		instMutSeq[inst]++
 		if isCorrupt {
 			corrupt[name] = true
-			b.Put(name, []byte("this is not a gzip stream"))
+			blob := corruptBlob(inst, nextID, kind)
+			if refDecodes(blob) {
+				panic("harness: corrupt blob decodes with the reference codec")
+			}
+			b.Put(name, blob)
+			o.Class(fmt.Sprintf("corrupt-kind-%d", kind%4))
 		} else {
 			b.Put(name, validBlob(inst, nextID))
 		}
@@ -164,7 +243,7 @@ func checkC16(c C16Case, o *vcore.Obs) error {
 	}
 	snapshotState()
 	for i := 0; i < c.OwnAtStart; i++ {
-		publish("own", c.OwnCorrupt && i == c.OwnAtStart-1)
+		publish("own", c.OwnCorrupt && i == c.OwnAtStart-1, i)
 	}
 	ownStartupCandidates := map[string]bool{}
 	for _, n := range b.Names() {
@@ -172,7 +251,10 @@ func checkC16(c C16Case, o *vcore.Obs) error {
 	}
 	for _, op := range c.Pre {
 		if op.Kind == "publish" && op.Inst%len(insts) != 0 {
-			publish(insts[op.Inst%len(insts)], op.Corrupt)
+			publish(insts[op.Inst%len(insts)], op.Corrupt, op.CorruptKind)
+		}
+		if op.Kind == "foreign" {
+			publishForeign(insts[op.Inst%len(insts)], op.Idx)
 		}
 	}
 
@@ -227,6 +309,9 @@ func checkC16(c C16Case, o *vcore.Obs) error {
 		}
 		nDeliveries++
 		name := u.NameInfo.FullName
+		if !strings.HasPrefix(name, db+"__") || u.NameInfo.SyncerName != db {
+			return true, fmt.Errorf("%s: file %q, which is not a snapshot of database %q, was delivered as a snapshot of instance %q", where, name, db, inst)
+		}
 		if u.Snapshot == nil {
 			return true, fmt.Errorf("%s: delivered update %s has no snapshot", where, name)
 		}
@@ -295,10 +380,12 @@ func checkC16(c C16Case, o *vcore.Obs) error {
 				continue
 			}
 			prev := states[len(states)-1].newestValid[inst]
-			publish(inst, op.Corrupt)
+			publish(inst, op.Corrupt, op.CorruptKind)
 			if prev != "" && lastDelivered[inst] != prev {
 				superseded = true
 			}
+		case "foreign":
+			publishForeign(insts[op.Inst%len(insts)], op.Idx)
 		case "remove":
 			names := b.Names()
 			if len(names) > 0 {
@@ -479,15 +566,22 @@ func genC16(t *rapid.T) C16Case {
 	c.OwnCorrupt = rapid.IntRange(0, 4).Draw(t, "owncorrupt") == 0
 	np := rapid.IntRange(0, 6).Draw(t, "npre")
 	for i := 0; i < np; i++ {
-		c.Pre = append(c.Pre, C16Op{Kind: "publish", Inst: rapid.IntRange(1, c.NInst-1).Draw(t, "pinst"), Corrupt: rapid.IntRange(0, 4).Draw(t, "pcorrupt") == 0})
+		c.Pre = append(c.Pre, C16Op{Kind: "publish", Inst: rapid.IntRange(1, c.NInst-1).Draw(t, "pinst"), Corrupt: rapid.IntRange(0, 4).Draw(t, "pcorrupt") == 0, CorruptKind: rapid.IntRange(0, 3).Draw(t, "pckind")})
+	}
+	for i := rapid.IntRange(0, 2).Draw(t, "nforeign"); i > 0; i-- {
+		c.Pre = append(c.Pre, C16Op{Kind: "foreign", Inst: rapid.IntRange(0, c.NInst-1).Draw(t, "finst"), Idx: rapid.IntRange(0, 7).Draw(t, "fidx")})
 	}
 	n := rapid.IntRange(3, 30).Draw(t, "nops")
 	for i := 0; i < n; i++ {
-		op := C16Op{Kind: rapid.SampledFrom([]string{"publish", "publish", "publish", "remove", "faults", "consume", "consume", "release", "wait", "wait"}).Draw(t, "kind")}
+		op := C16Op{Kind: rapid.SampledFrom([]string{"publish", "publish", "publish", "foreign", "remove", "faults", "consume", "consume", "release", "wait", "wait"}).Draw(t, "kind")}
 		switch op.Kind {
 		case "publish":
 			op.Inst = rapid.IntRange(1, c.NInst-1).Draw(t, "inst")
 			op.Corrupt = rapid.IntRange(0, 4).Draw(t, "corrupt") == 0
+			op.CorruptKind = rapid.IntRange(0, 3).Draw(t, "ckind")
+		case "foreign":
+			op.Inst = rapid.IntRange(0, c.NInst-1).Draw(t, "finst")
+			op.Idx = rapid.IntRange(0, 7).Draw(t, "fidx")
 		case "remove":
 			op.Idx = rapid.IntRange(0, 30).Draw(t, "idx")
 		case "faults":
@@ -504,7 +598,7 @@ func genC16(t *rapid.T) C16Case {
 
 func TestC16Receiver(t *testing.T) {
 	vcore.Run(t, vcore.Config{Property: "C16", Inflight: true,
-		Rule: "rapid state machine over a bucket and one real receiver.Receiver (Run in the background, 1 ms poll/retry): 2-6 instances incl. the receiver's own, memory limits 1-3, publishes of valid / undecodable blobs, removals (vanish between listing and download), List/Load fault plans (fail / not-exist, <=3), consume (updates held and released later), waits; at every step the active-token gauges stay within the limits and every delivered update is a decodable newest snapshot of its instance at some point since its previous delivery, own snapshots only from the start-up listing; end phase (faults off, bucket frozen, draining consumer): every other instance's newest decodable snapshot arrives within a bounded time, then all tokens return to 0; undecodable blobs are downloaded at most once; " +
+		Rule: "rapid state machine over a bucket and one real receiver.Receiver (Run in the background, 1 ms poll/retry): 2-6 instances incl. the receiver's own, memory limits 1-3, publishes of valid / undecodable blobs (not gzip, gzip around non-protobuf bytes, cut short, gzip around a truncated message), files of other databases whose names share a prefix with this one and unparsable names (never delivered), removals (vanish between listing and download), List/Load fault plans (fail / not-exist, <=3), consume (updates held and released later), waits; at every step the active-token gauges stay within the limits and every delivered update is a decodable newest snapshot of its instance at some point since its previous delivery, own snapshots only from the start-up listing; end phase (faults off, bucket frozen, draining consumer): every other instance's newest decodable snapshot arrives within a bounded time, then all tokens return to 0; undecodable blobs are downloaded at most once; " +
 			"non-trivial = >=3 other instances with limits 1/1, or faults + a snapshot superseded before being consumed, or an instance with both corrupt and valid blobs"},
 		genC16, checkC16)
 }
